@@ -735,10 +735,13 @@ impl PartialEq for Value {
                                 ObjectRepr::Seq | ObjectRepr::Iterable,
                                 ObjectRepr::Seq | ObjectRepr::Iterable,
                             ) => {
-                                match (a.try_iter(), b.try_iter()) {
-                                    (Some(ak), Some(bk)) => ak.eq(bk),
-                                    (None, None) => a.to_string() == b.to_string(),
-                                    _ => false,
+                                if let (Some(ak), Some(bk)) = (a.try_iter(), b.try_iter()) {
+                                    ak.eq(bk)
+                                } else {
+                                    // neither can be enumerated: like plain objects
+                                    a.try_iter().is_none()
+                                        && b.try_iter().is_none()
+                                        && a.to_string() == b.to_string()
                                 }
                             }
                             // terrible fallback for plain objects
